@@ -2792,6 +2792,18 @@ impl DhtNetworkManager {
     pub async fn verif_core_shutdown_signalled(&self) -> bool {
         self.dht.read().await.verif_shutdown_signalled()
     }
+
+    /// DHT key and address of every entry of the core engine's routing table.
+    pub async fn verif_routing_table_entries(&self) -> Vec<(Key, String)> {
+        self.dht
+            .read()
+            .await
+            .verif_routing_table_nodes()
+            .await
+            .into_iter()
+            .map(|n| (*n.id.as_bytes(), n.address))
+            .collect()
+    }
 }
 
 impl Default for DhtNetworkConfig {
